@@ -216,7 +216,7 @@ def draw_pack_case(rng, alg=None, cls=None, pres=None, algs=PACKERS, nmax=None, 
 
 def draw_cover_case(rng, alg=None, cls=None, pres=None, nmax=None):
     alg = alg or rng.choice(COVERERS)
-    cls = cls or rng.choice(["random", "threshold", "toosmall", "equal", "planted", "worst", "widerange"])
+    cls = cls or rng.choice(["random", "threshold", "toosmall", "equal", "planted", "worst", "widerange", "allbig"])
     C, v = gen.cover_instance(rng, cls, nmax or rng.choice([8, 12, 40, 150]))
     order = rng.choice(gen.ORDERS)
     return {"kind": "cover", "alg": alg, "C": C, "values": gen.arrange(rng, v, order), "cls": cls, "order": order,
